@@ -73,8 +73,11 @@ def grammar(rnd, n, numeric=False, with_unbounded=True, with_text=True):
             out.append(WB({'A1': iv[0], 'A2': iv[1], 'A3': iv[2]},
                           {'C1': '=SUM(A:A)', 'C2': '=C1+1'}, 'unbounded'))
         elif kind == 5 and with_text:    # text and logicals
-            v = rnd.choice(pool)
-            out.append(WB({'A1': v, 'A2': rnd.choice(pool)},
+            # (an empty text constant cannot be stored in an .xlsx file - it is read back as a blank cell - so it is
+            #  only ever assigned later, through set_value)
+            init = [x for x in pool if x != '']
+            v = rnd.choice(init)
+            out.append(WB({'A1': v, 'A2': rnd.choice(init)},
                           {'B1': '=A1&"x"', 'B2': '=IF(A1=A2,"same","diff")', 'B3': '=LEN(B1)+1'}, 'text'))
         elif kind == 8:    # formula results that are blank-like: 0, FALSE, ""  (a stored "" is read back as no value)
             out.append(WB({'A1': iv[0], 'A2': 0},
